@@ -12,7 +12,11 @@ EVID = os.path.join(ROOT, "build", "alt-evidence") if ALT else os.path.join(ROOT
 REPLAYS = os.path.join(ROOT, "build", "alt-replays") if ALT else os.path.join(ROOT, "replays")
 
 GOENV = dict(os.environ, GOFLAGS="-mod=mod", GOPROXY="off", GOSUMDB="off", GOTOOLCHAIN="local",
-             GOCACHE=os.path.join(BUILD, "gocache"))
+             GOCACHE=os.environ.get("VERIF_GOCACHE", os.path.join(BUILD, "gocache")))
+
+BASE_NOTE = ("Trusted: Coq 8.16.1 kernel + vm_compute (no native_compute); no axioms declared (Print Assumptions recorded in evidence); "
+             "translator tools/gotables and the reflective probes that regenerate coq/theories/Gen/*.v on every run; "
+             "the Go correspondence harness and lib/*.py. ")
 
 TRUSTED_BASE = [
     "Coq 8.16.1 kernel (coqc); vm_compute used in instance lemmas and case evaluation; no native_compute",
@@ -170,10 +174,11 @@ def vh(args, input=None, timeout=600, race=False):
 # known findings
 
 def known_findings(prop=None):
-    path = os.path.join(ROOT, "known_findings.json")
-    if not os.path.exists(path):
-        return []
-    ks = json.load(open(path))
+    ks = []
+    import glob
+    for path in [os.path.join(ROOT, "known_findings.json")] + sorted(glob.glob(os.path.join(ROOT, "known_findings.d", "*.json"))):
+        if os.path.exists(path):
+            ks += json.load(open(path))
     return [k for k in ks if prop is None or k["property"] == prop]
 
 
